@@ -6,8 +6,7 @@ from valpool import *
 ID = "C28"
 GEN = ["Units"]
 THEOREMS = ["C28_index_of", "C28_nth", "C28_set_nth", "C28_append", "C28_join", "C28_index", "C28_zip",
-            "C28_length_separator_bracketed", "C28_map_as_pairs", "C28_refines", "C28_list_eq", "C28_short_list_sep_matters",
-            "C28_refuted_index_arglist"]
+            "C28_length_separator_bracketed", "C28_map_as_pairs", "C28_refines", "C28_list_eq", "C28_short_list_sep_matters"]
 COQ_HEADER = ("From Coq Require Import String List NArith ZArith.\nFrom RV Require Import Model.CssStr Model.ValueLite Run.C28.\n"
               "Import ListNotations.\nLocal Open Scope list_scope.")
 RUN_EXPR = "Run.C28.run"
@@ -255,7 +254,7 @@ def coq_term(c, io):
     return f"(mkCase ({call_term(c)}) {impl})"
 
 
-KCLASS = {0: None, 1: "known_C28_K1_index_arglist"}
+KCLASS = {0: None}
 
 
 def judge(c, io, r):
@@ -289,7 +288,7 @@ def shrink(c):
 LEVEL_TEXT = ("proof: sass/functions/list.rs modelled on a small value type (get_list, index_of, every function); laws for all "
               "lists and all integer indices (nth/set-nth accept exactly 1..n and -n..-1, set-nth changes one element, "
               "append/join concatenate with the documented separator/bracket choice, index is the first == position, zip "
-              "has min length) and refinement of every function to a reference semantics outside one refuted case; tied to "
+              "has min length) and refinement of every function to a reference semantics (index on a map by correspondence only); tied to "
               "rsass by byte-exact inspect() output on generated calls")
-LEVEL_NOTE = "list.index on an argument list deviates from the Sass list model (known finding F31); list.length(null) was fixed in /repo by 24d2171"
+LEVEL_NOTE = "F31 (list.index on an argument list) and F32 (list.length(null)) were fixed in /repo by 0cb45e1 and 24d2171; no open finding"
 TECHNIQUE = "Coq proof (induction over lists, arithmetic over Z) + differential correspondence through inspect()"
